@@ -423,7 +423,7 @@ func genModule(r *base.Rand, nPairs int, startFeature int) *c05module {
 		m.pairs = append(m.pairs, p)
 	}
 	// annotation-level features on some plain pairs
-	annFeatures := []string{"unimported-qualifier", "missing-interface", "not-an-interface", "dir-name-qualifier", "blank-import", "imported-only-by-sibling-file"}
+	annFeatures := []string{"unimported-qualifier", "missing-interface", "not-an-interface", "dir-name-qualifier", "blank-import", "imported-only-by-sibling-file", "predeclared-name-unqualified", "predeclared-name-qualified"}
 	k := 0
 	for _, p := range m.pairs {
 		if p.feature == "plain" && p.ifacePkg != "impl" {
@@ -494,6 +494,11 @@ func genModule(r *base.Rand, nPairs int, startFeature int) *c05module {
 			q = "nosuchpkg"
 		case "missing-interface":
 			ann = "NoSuch" + p.ifaceName
+		case "predeclared-name-unqualified":
+			// error / any are declared by no package of the module: IMPL02, whatever the type's methods are
+			q, ann = "", []string{"error", "any"}[p.idx%2]
+		case "predeclared-name-qualified":
+			q, ann = tq["ifc"], []string{"error", "any", "comparable"}[p.idx%3]
 		case "not-an-interface":
 			q, ann = tq["ifc"], "Item"
 		case "dir-name-qualifier":
